@@ -105,6 +105,68 @@ func formatCell(c *table.Cell) (string, error) {
 	return strings.TrimSpace(c.String()), nil
 }
 
+// compareCells compares two cells by value: two int64 or two float64 literals
+// numerically, two time anchors as instants, and text literals and plain
+// strings (extracted IDs and types) lexicographically. It returns false for
+// every other pair of cells, which are compared through formatCell.
+func compareCells(l, r *table.Cell) (int, bool) {
+	sign := func(less, greater bool) int {
+		if less {
+			return -1
+		}
+		if greater {
+			return 1
+		}
+		return 0
+	}
+	text := func(c *table.Cell) (string, bool) {
+		if c.S != nil {
+			return *c.S, true
+		}
+		if c.L != nil && c.L.Type() == literal.Text {
+			t, err := c.L.Text()
+			return t, err == nil
+		}
+		return "", false
+	}
+	if tl, ok := text(l); ok {
+		if tr, ok := text(r); ok {
+			return sign(tl < tr, tl > tr), true
+		}
+		return 0, false
+	}
+	if l.L != nil && r.L != nil && l.L.Type() == r.L.Type() {
+		switch l.L.Type() {
+		case literal.Int64:
+			vl, _ := l.L.Int64()
+			vr, _ := r.L.Int64()
+			return sign(vl < vr, vl > vr), true
+		case literal.Float64:
+			vl, _ := l.L.Float64()
+			vr, _ := r.L.Float64()
+			return sign(vl < vr, vl > vr), true
+		}
+	}
+	if l.T != nil && r.T != nil {
+		return sign(l.T.Before(*r.T), l.T.After(*r.T)), true
+	}
+	return 0, false
+}
+
+// evalComparison applies the comparison operation to the result of compareCells.
+func evalComparison(op OP, c int) (bool, error) {
+	switch op {
+	case EQ:
+		return c == 0, nil
+	case LT:
+		return c < 0, nil
+	case GT:
+		return c > 0, nil
+	default:
+		return false, fmt.Errorf("boolean evaluation requires a boolean operation; found %q instead", op)
+	}
+}
+
 // evaluationNode represents the internal representation of one expression.
 type evaluationNode struct {
 	operation OP
@@ -131,6 +193,9 @@ func (e *evaluationNode) Evaluate(r table.Row) (bool, error) {
 	leftBinding, rightBinding, err := eval()
 	if err != nil {
 		return false, err
+	}
+	if c, ok := compareCells(leftBinding, rightBinding); ok {
+		return evalComparison(e.operation, c)
 	}
 
 	// comparable string expressions for left and right tokens.
@@ -183,6 +248,9 @@ func (e *comparisonForLiteral) Evaluate(r table.Row) (bool, error) {
 
 	if leftBinding.L != nil && leftBinding.L.Type() != rightLiteral.Type() {
 		return false, nil
+	}
+	if c, ok := compareCells(leftBinding, &table.Cell{L: rightLiteral}); ok {
+		return evalComparison(e.operation, c)
 	}
 
 	// comparable string expressions for left and right tokens.
